@@ -110,6 +110,8 @@ def replay_numpy(req, tmp):
     z0, dz = m_.get('z0', 0), m_.get('dz_ms', 4)
     if opts.get('samples') == 'sym':
         kw['samples'] = z0 + dz * np.arange(dims[2])
+    if opts.get('samples') == 'fp':
+        kw['samples'] = np.arange(dims[2]) * (m_['dt_us'] / 1000.0) + m_['t0_ms']
     path = os.path.join(tmp, 'out.sgz')
     what = 'NumpyConverter(%s cube).run(bits_per_voxel=%s, blockshape=%s)' % (dims, opts.get('bpv_in', rate), tuple(opts.get('bs_in', bs)))
     if req.get('prop') == 'C18':
@@ -173,6 +175,13 @@ def replay_numpy(req, tmp):
             if not np.array_equal(r.xlines, xl0 + xl_step * np.arange(dims[1])):
                 bad.append('xlines %s..' % r.xlines[:3])
             zs = z0 + dz * np.arange(dims[2])
+            if opts.get('samples') == 'fp':
+                zs = m_['t0_ms'] + (m_['dt_us'] / 1000.0) * np.arange(dims[2])
+                import struct as _st
+                with open(path, 'rb') as fh:
+                    iv = _st.unpack_from('<i', fh.read(64), 28)[0]
+                if iv != m_['dt_us']:
+                    bad.append('stored sample interval %d us (source %d us)' % (iv, m_['dt_us']))
             if len(r.zslices) != dims[2] or not np.allclose(r.zslices, zs, rtol=0, atol=1e-6):
                 bad.append('sample axis len %d first %s (true len %d first %s)' % (len(r.zslices), r.zslices[:3], dims[2], zs[:3]))
             if r.tracecount != dims[0] * dims[1] or not r.structured:
